@@ -983,7 +983,12 @@ Message *Session::generate_sequence_reset(const unsigned newseqnum, const bool g
 	*msg << new new_seq_num(newseqnum);
 
 	if (gapfillflag)
+	{
 		*msg << new gap_fill_flag(true);
+		// a gap fill answers a resend request: like the replayed messages it is a possible duplicate, so that
+		// a receiver that already is past it ignores it instead of treating the number as too low
+		*msg->Header() << new poss_dup_flag(true);
+	}
 
 	return msg;
 }
